@@ -294,6 +294,12 @@ class Report:
         os.makedirs(evdir, exist_ok=True)
         with open(os.path.join(evdir, self.prop + ".json"), "w") as f:
             json.dump(ev, f, indent=1, default=str)
+        if self.tier == "thorough":
+            # evidence/<id>.json is rewritten by every run; the last thorough run is also kept on its own
+            tdir = os.path.join(ROOT, "evidence_thorough")
+            os.makedirs(tdir, exist_ok=True)
+            with open(os.path.join(tdir, self.prop + ".json"), "w") as f:
+                json.dump(ev, f, indent=1, default=str)
         log("%s %s: evaluations=%s nontrivial=%s violations=%d known=%d wall=%.1fs" % (
             self.prop, self.tier, cov.get("evaluations"), cov.get("distinct_nontrivial"),
             len(self.violations), sum(h["count"] for h in self.known_hits.values()), wall))
